@@ -818,6 +818,12 @@ func (r *run) exec1(op Op) {
 		}
 		r.emit("AddCommit", map[string]interface{}{"a": op.A, "cf": op.Cf, "S": strs(op.F), "name": name}, res, et, nil)
 	case "RebuildCopy":
+		if st, _ := r.node(op.A).s.Status(); r.members()[op.A] != "WO" || r.members()[op.Src] != "RW" ||
+			st == replica.Closed || r.node(op.Src).s.Replica() == nil {
+			// the scenario's add did not go through (or the source is gone): nothing to copy
+			r.emit("Noop", map[string]interface{}{"a": op.A}, "ok", "", nil)
+			return
+		}
 		err := r.rebuildCopy(op.A, op.Src)
 		res, et := resOf(err)
 		if err != nil {
